@@ -40,7 +40,9 @@ ASSUMPTIONS = ['harness component functions are complex-safe and evaluated with 
                'solvers / cyclic groups is not value-judged (documented caveat), only its state restoration is',
                'no MPI / parallel FD']
 
-MECHANISMS = ('rel-step-frozen-at-first-linearization', 'mixed-wrt-options')
+MECHANISMS = ('rel-step-frozen-at-first-linearization', 'mixed-wrt-options', 'colored-rel-step-from-single-wrt',
+              'colored-cs-sparsity-by-fd-with-cs-step', 'approx-group-with-implicit-comp',
+              'approx-group-block-reuses-component-subjac')
 SCENARIOS = ['partials', 'partials', 'partials', 'colored', 'colored', 'semitotal', 'semitotal', 'total']
 
 
@@ -116,6 +118,18 @@ def _restore_viols(acc, bad, K, api, case, first):
                  case, new_case=first)
         first = False
     return first
+
+
+def _exc(acc, K, where, e, case, first):
+    """exception escaping the code under test on a legal input -> violation; an exception with no openmdao frame
+    is a harness error and is re-raised (-> INCONCLUSIVE)."""
+    from omv.kit.gmon import exc_where
+    if os.environ.get('OMV_DEBUG'):
+        import traceback
+        traceback.print_exception(type(e), e, e.__traceback__)
+    if exc_where(e) == '?':
+        raise e
+    acc.viol(K(exc_key(where, e)), '%s: %s' % (type(e).__name__, str(e)[:300]), case, new_case=first)
 
 
 def _dense(v):
@@ -202,7 +216,7 @@ def _wrt_opts(c):
     return res
 
 
-def _judge_comp(kit, c, comp, st, events, frozen_x, out):
+def _judge_comp(kit, c, comp, st, events, frozen_x, out, colored=False):
     """Judge all approximated blocks of one component.  st = (x, y, r) before the approximation.
     out: list collecting (keypart, observable, message)."""
     x, y, rcur = st
@@ -218,6 +232,17 @@ def _judge_comp(kit, c, comp, st, events, frozen_x, out):
         E[o] = ev[o]['E']
     wopts = _wrt_opts(c)
     ncells = []
+    cand = []     # colored approximations: steps that a single wrt variable / element would give
+    if colored:
+        o = ([o_ for o_ in wopts.values() if o_] or [None])[0]
+        for var in list(x) + list(y):       # declare_coloring declares every (of, wrt) pair of the component
+            if o and o['method'] == 'fd' and (o.get('step_calc') or 'abs') != 'abs':
+                vals = [y[var] if var in y else x[var]]
+                if frozen_x is not None:
+                    vals.append(frozen_x[1][var] if var in y else frozen_x[0][var])
+                for v in vals:
+                    cand += list(kit.doc_step(o, v))
+        cand = sorted(set(float(h) for h in cand))
     blocks = [(key.split('|')[0], key.split('|')[1], o) for key, o in cfg.get('blocks', {}).items()]
     blocks += [(o_, o_, o) for o_, o in cfg.get('self', {}).items()]
     for o_, k, opts in blocks:
@@ -254,7 +279,15 @@ def _judge_comp(kit, c, comp, st, events, frozen_x, out):
             i, j = np.unravel_index(np.argmax(np.where(np.isfinite(err), err / bound, np.inf)), err.shape)
             obs = 'value'
             why = ''
-            if form != 'cs':
+            if colored and form == 'cs' and opts.get('step') and J[i, j] == 0.0:
+                why = 'colored-cs-sparsity-by-fd-with-cs-step'
+            if colored and form != 'cs':
+                for hc in cand:
+                    bc, _, _ = kit.fd_bound(form, np.full(xk.size, hc), M, D, xk, E[o_], 0.0)
+                    if np.all(err <= bc):
+                        why = 'colored-rel-step-from-single-wrt'
+                        break
+            if form != 'cs' and not why:
                 # explainable by the stored residual being inconsistent with (inputs, outputs)?
                 bst, _, _ = kit.fd_bound(form, h, M, D, xk, E[o_], stale[o_])
                 if np.all(err <= bst):
@@ -320,7 +353,10 @@ def _judge_comp(kit, c, comp, st, events, frozen_x, out):
                 nobs += 1
                 if not any(abs(diff[j] - e) <= tol for e in exp):
                     why = ''
-                    if frozen_x is not None and (opts.get('step_calc') or 'abs') != 'abs':
+                    if colored and any(abs(diff[j] - e) <= 2.0 * kit.EPS * (abs(base[var][j]) + hc)
+                                       for hc in cand for e in kit.expected_deltas(opts, hc)):
+                        why = 'colored-rel-step-from-single-wrt'
+                    if not why and frozen_x is not None and (opts.get('step_calc') or 'abs') != 'abs':
                         xf = frozen_x[1][var] if var in y else frozen_x[0][var]
                         hf = kit.doc_step(opts, xf)[j]
                         if any(abs(diff[j] - e) <= 2.0 * kit.EPS * (abs(base[var][j]) + hf)
@@ -426,9 +462,16 @@ def _decorate_colored(kit, spec, rng):
         selfb = {}
         if imp and wrt_pat == '*':
             selfb = {oo['name']: dict(opt) for oo in c['outputs']}
+        if not blocks and not selfb:
+            continue
         c['c12'] = {'blocks': blocks, 'self': selfb, 'order': sorted(blocks), 'coloring': col,
                     'via_coloring_only': not keep, 'keep': keep}
-    return [c['name'] for c in chosen]
+        if keep:
+            c['c12']['predeclare'] = ['*' if wrt_pat == '*' else wrts, dict(opt)]
+    chosen = [c['name'] for c in chosen if c['c12'].get('coloring')]
+    if not chosen:
+        raise HarnessSkip('no-colorable-block')
+    return chosen
 
 
 def _group_nodes(tree, path=()):
@@ -599,7 +642,7 @@ def _run_partials(case, acc):
             prob = G.build(spec, hook=rec, comp_factory=kit.comp_factory)
             prob.setup(mode=rng.choice(['fwd', 'rev']))
         except Exception as e:
-            acc.viol(K(exc_key('setup', e)), '%s: %s' % (type(e).__name__, str(e)[:300]), case)
+            _exc(acc, K, 'setup', e, case, first)
             return
         for pt in (1, 2):
             scen = 'partials' if pt == 1 else 'partials-pt2'
@@ -608,8 +651,7 @@ def _run_partials(case, acc):
                     _set_points(prob, spec, pts2)
                 prob.run_model()
             except Exception as e:
-                acc.viol(K(exc_key('run_model', e)), '%s: %s' % (type(e).__name__, str(e)[:300]), case,
-                         new_case=first)
+                _exc(acc, K, 'run_model', e, case, first)
                 prob.cleanup()
                 return
             if fmon.failures:
@@ -622,11 +664,7 @@ def _run_partials(case, acc):
                 prob.model.run_linearize()
             except Exception as e:
                 rec.on = False
-                if os.environ.get('OMV_DEBUG'):
-                    import traceback
-                    traceback.print_exc()
-                acc.viol(K(exc_key('run_linearize', e)), '%s: %s' % (type(e).__name__, str(e)[:300]), case,
-                         new_case=first)
+                _exc(acc, K, 'run_linearize', e, case, first)
                 prob.cleanup()
                 return
             rec.on = False
@@ -650,8 +688,7 @@ def _run_partials(case, acc):
                     first = _restore_viols(acc, _cmp_snap(acc, before, _snap(prob.model)), K, 'compute_totals',
                                            case, first)
                 except Exception as e:
-                    acc.viol(K(exc_key('compute_totals', e)), '%s: %s' % (type(e).__name__, str(e)[:300]), case,
-                             new_case=first)
+                    _exc(acc, K, 'compute_totals', e, case, first)
                     first = False
             acc.count('obs:point-%d' % pt)
         failed = list(fmon.failures)
@@ -692,12 +729,10 @@ def _run_colored(case, acc):
     comps = [c for c in spec['comps'] if c['name'] in chosen]
     rec, rec2 = Recorder(), Recorder()
     methods = sorted(set(c['c12']['coloring']['method'] for c in comps))
-    keep = any(c['c12'].get('keep') and (list(c['c12']['blocks'].values()) or [{}])[0].get('step_calc')
-               not in (None, 'abs') for c in comps)
 
     def K(what):
-        return 'colored%s:%s:%s' % ('+rel-step_calc' if keep else '', what, '+'.join(methods))
-    scen = 'colored+rel-step_calc' if keep else 'colored'
+        return 'colored:%s:%s' % (what, '+'.join(methods))
+    scen = 'colored'
     first = True
     with FailureMonitor() as fmon:
         try:
@@ -708,7 +743,7 @@ def _run_colored(case, acc):
             twin.setup(mode='fwd')
             twin.run_model()
         except Exception as e:
-            acc.viol(K(exc_key('setup-or-run', e)), '%s: %s' % (type(e).__name__, str(e)[:300]), case)
+            _exc(acc, K, 'setup-or-run', e, case, first)
             return
         if fmon.failures:
             prob.cleanup()
@@ -719,6 +754,7 @@ def _run_colored(case, acc):
         tsys = {c['name']: twin.model._get_subsystem(spec['path'][c['name']]) for c in comps}
         states = {c['name']: _comp_state(sysm[c['name']], c) for c in comps}
         out = []
+        mech = {c['name']: set() for c in comps}
         ncolored = 0
         cells = []
         try:
@@ -736,7 +772,9 @@ def _run_colored(case, acc):
                     events = []
                 for c in comps:
                     o2 = []
-                    nc, nobs, nev = _judge_comp(kit, c, sysm[c['name']], states[c['name']], events, None, o2)
+                    nc, nobs, nev = _judge_comp(kit, c, sysm[c['name']], states[c['name']], events,
+                                                rec.first_lin.get(c['name']), o2, colored=True)
+                    mech[c['name']] |= set(kp for kp, _, _ in o2 if kp.startswith(MECHANISMS))
                     out += [(kp, ob + ('(first-linearize)' if rnd == 1 else ''), m) for kp, ob, m in o2]
                     if rnd == 2:
                         cells += nc
@@ -770,17 +808,19 @@ def _run_colored(case, acc):
                     d = np.abs(Jc - Ju)
                     if Jc.shape != Ju.shape or np.any(d > tol):
                         i, j = np.unravel_index(np.argmax(d / np.maximum(tol, 1e-300)), d.shape)
-                        out.append((kit.cell_of(opts), 'colored-vs-uncolored',
+                        kp = kit.cell_of(opts)
+                        if kit.eff_form(opts) == 'cs' and opts.get('step') and Jc.shape == Ju.shape and \
+                                Jc[i, j] == 0.0:
+                            kp = 'colored-cs-sparsity-by-fd-with-cs-step'
+                        elif 'colored-rel-step-from-single-wrt' in mech[c['name']]:
+                            kp = 'colored-rel-step-from-single-wrt'
+                        out.append((kp, 'colored-vs-uncolored',
                                     'd %s/d %s [%d,%d]: colored %.12g uncolored %.12g diff %.3e > round-off bound '
                                     '%.3e opts %s coloring %s' % (o_, k, i, j, Jc[i, j], Ju[i, j], d[i, j], tol[i, j],
                                                                  opts, c['c12']['coloring'])))
         except Exception as e:
             rec.on = False
-            if os.environ.get('OMV_DEBUG'):
-                import traceback
-                traceback.print_exc()
-            acc.viol(K(exc_key('run_linearize', e)), '%s: %s' % (type(e).__name__, str(e)[:300]), case,
-                     new_case=first)
+            _exc(acc, K, 'run_linearize', e, case, first)
             prob.cleanup()
             twin.cleanup()
             return
@@ -845,13 +885,19 @@ def _run_group(case, acc):
             raise HarnessSkip('no-subgroup')
         nodes.sort(key=lambda t: -len(_members(t[1])))
         gpath, node = nodes[0] if rng.random() < 0.6 else rng.choice(nodes)
-    members = [m for m in _members(node) if not m.startswith('iv')]
+    members_all = _members(node)
+    members = [m for m in members_all if not m.startswith('iv')]
     if not members:
         raise HarnessSkip('group-without-components')
     solv = _sub_solvers(node)
     iterative = any(nl != 'runonce' or cyc for nl, cyc in solv)
     opts = kit.rand_opts(rng, small_steps=False)
     opts.pop('minimum_step', None)            # approx_totals has no minimum_step argument
+    if opts['method'] == 'cs' and any(nl in ('newton', 'broyden') for nl, _ in solv):
+        # documented restriction: a gradient-based solver under complex step must not get its gradients from
+        # complex step -> use fd for such groups
+        opts = kit.rand_opts(rng, method='fd', small_steps=False)
+        opts.pop('minimum_step', None)
     if opts['method'] == 'fd' and iterative:
         opts['step'] = rng.choice([1e-3, 1e-4, 1e-4, 1e-5])   # solver tolerance 1e-11 / h stays small
     cell = kit.cell_of(opts)
@@ -860,7 +906,12 @@ def _run_group(case, acc):
     pts2 = _points(spec, rng, second=True)
     first = True
 
+    has_imp = any(c['kind'] == 'imp' and c['name'] in members for c in spec['comps'])
+
     def K(what):
+        if has_imp and not total and 'raises:RuntimeError@direct.py' in what:
+            # the (state, state) block of the approximated group is not the explicit -1 diagonal
+            return 'approx-group-with-implicit-comp:%s:%s' % (scen0, what)
         return '%s:%s:%s' % (scen0, what, opts['method'] + ('+iterative' if iterative else ''))
     judged_blocks = 0
     nonlin = False
@@ -871,7 +922,7 @@ def _run_group(case, acc):
             grp.approx_totals(**{k: v for k, v in opts.items() if v is not None})
             prob.setup(mode=rng.choice(['fwd', 'rev']))
         except Exception as e:
-            acc.viol(K(exc_key('setup', e)), '%s: %s' % (type(e).__name__, str(e)[:300]), case)
+            _exc(acc, K, 'setup', e, case, first)
             return
         cmap = {c['name']: c for c in spec['comps']}
         frozen = None
@@ -883,8 +934,7 @@ def _run_group(case, acc):
                     _apply_points(spec, pts2)
                 prob.run_model()
             except Exception as e:
-                acc.viol(K(exc_key('run_model', e)), '%s: %s' % (type(e).__name__, str(e)[:300]), case,
-                         new_case=first)
+                _exc(acc, K, 'run_model', e, case, first)
                 prob.cleanup()
                 return
             if fmon.failures:
@@ -900,7 +950,9 @@ def _run_group(case, acc):
                     s_ = prob.model._get_subsystem(spec['path'][m])
                     for i in cmap[m]['inputs']:
                         actual[i['name']] = np.array(s_._inputs[i['name']], dtype=float).ravel()
-                sub, ext = _sub_spec(spec, members, actual)
+                sub, ext = _sub_spec(spec, members_all, actual)
+                if not ext:
+                    raise HarnessSkip('group-without-external-inputs')
                 fm = FlatModel(sub)
                 colvars = ext
                 colname = {k: 'E_' + k for k in ext}
@@ -933,11 +985,7 @@ def _run_group(case, acc):
                     prob.model.run_linearize()
                     api = 'run_linearize'
             except Exception as e:
-                if os.environ.get('OMV_DEBUG'):
-                    import traceback
-                    traceback.print_exc()
-                acc.viol(K(exc_key('approximation', e)), '%s: %s' % (type(e).__name__, str(e)[:300]), case,
-                         new_case=first)
+                _exc(acc, K, 'approximation', e, case, first)
                 prob.cleanup()
                 return
             if fmon.failures:
@@ -955,12 +1003,13 @@ def _run_group(case, acc):
                             J = _dense(Jd[G.top_name(spec, o_), G.top_name(spec, w)])
                         else:
                             key = (G.abs_name(spec, o_), G.abs_name(spec, w))
-                            if key not in grp._jacobian._subjacs_info:
+                            sjs = grp._jacobian._get_subjacs()
+                            if key not in sjs:
                                 if np.any(S[a:b, wa:wb] != 0.0):
                                     out.append((cell, 'missing-block', 'no sub-jacobian %s but exact is nonzero' %
                                                 (key,)))
                                 continue
-                            J = _dense(grp._jacobian[key])
+                            J = _dense(sjs[key].todense())
                     except Exception as e:
                         out.append((cell, 'jacobian-read:' + type(e).__name__, str(e)[:200]))
                         continue
@@ -979,7 +1028,18 @@ def _run_group(case, acc):
                         i, j = np.unravel_index(np.argmax(np.where(np.isfinite(err), err / bound, np.inf)),
                                                 err.shape)
                         why = ''
-                        if frozen is not None and form != 'cs' and (opts.get('step_calc') or 'abs') != 'abs' \
+                        if not total and fm.out_owner[o_] == G._owner(spec, w):
+                            # the group-level block reuses the component's own sub-jacobian (declared sparsity
+                            # pattern and value storage): entries outside the pattern are dropped and an inner
+                            # gradient-based solver overwrites it when it re-linearizes during later FD solves
+                            cc = cmap[fm.out_owner[o_]]
+                            Dp, _ = kit.block_exact(cc, o_, w, pcol)
+                            if cc['kind'] == 'imp':
+                                Dp = -Dp
+                            badm = ~(err <= bound)
+                            if np.all(np.abs(J - Dp)[badm] <= 1e-9):
+                                why = 'approx-group-block-reuses-component-subjac'
+                        if not why and frozen is not None and form != 'cs' and (opts.get('step_calc') or 'abs') != 'abs' \
                                 and w in frozen:
                             hf = kit.doc_step(opts, frozen[w])
                             bf, _, _ = _total_bound(kit, form, hf, D, M2[a:b, wa:wb], M3[a:b, wa:wb], eu[a:b], pcol)
@@ -990,6 +1050,19 @@ def _run_group(case, acc):
                                     'roundoff %.2e, documented h %.3e, wrt value %.6g) opts %s' %
                                     (o_, w, i, j, J[i, j], D[i, j], err[i, j], bound[i, j], T[i, j], R[i, j], h[j],
                                      pcol[j], opts)))
+            if not total:
+                # an approximated group is used by its parents as an explicit block: d r_o / d o = -I
+                sjs = grp._jacobian._get_subjacs()
+                for o_ in ofs:
+                    key = (G.abs_name(spec, o_), G.abs_name(spec, o_))
+                    if key in sjs:
+                        acc.count('obs:group-state-diagonal')
+                        Dg = _dense(sjs[key].todense())
+                        if Dg.shape[0] != Dg.shape[1] or np.any(Dg != -np.eye(Dg.shape[0])):
+                            out.append(('approx-group-with-implicit-comp' if cmap[fm.out_owner[o_]]['kind'] == 'imp'
+                                        else cell, 'state-diagonal',
+                                        'block d %s/d %s of the approximated group is not -I: %s' %
+                                        (o_, o_, np.round(np.diag(Dg) if Dg.ndim == 2 else Dg, 6).tolist())))
             first = _report(acc, case, scen, out, first)
             if pt == 1:
                 frozen = {w: p[slice(*fm.poff[colname[w]])].copy() for w in colvars}
